@@ -34,6 +34,10 @@ RULE = ("per transport (mrp, companion, http, rtsp): every interleaving of 2 req
         "decode_protobufs, AirPlayMrpConnection) with 1..3 messages per data-stream frame; per transport 150 (thorough: "
         "1500) PAIRS of protocol objects alive at once with the same identifiers in flight, their random scripts "
         "interleaved at random, each judged on its own; "
+        "the segmentation of the device's message stream varies per script on every transport: one message per "
+        "read, as many consecutive messages as possible in one read, or 1..3 at random (HTTP/RTSP: the read "
+        "concatenated byte-wise and additionally cut into segments of 1 / 7 / 40 bytes; MRP/Companion: consecutive "
+        "hand-overs without a loop run; tunnel: one data-stream frame); 2-request HTTP/RTSP scripts run both ways; "
         "MRP listener sets vary per script (the unfiltered witness on every type plus up to 5 subscriptions: several "
         "listeners per type, the same function / bound method / coroutine subscribed repeatedly for one type with "
         "disjoint filters, the same callable on several types); plus 400 (thorough: 4000) bare MessageDispatcher cases "
@@ -52,6 +56,9 @@ ASSUMPTIONS = [
     "answer; Companion: only a response frame (`_t`=3) can answer, an event or device request never does",
     "plain HTTP: the device answers the requests it received in order, each once; RTSP: only 2xx responses",
     "stop()/close() racing with waiters is outside the quantifier",
+    "two messages for one identifier are never put into ONE read (below event granularity); MRP and Companion reads "
+    "are k consecutive message_received / frame_received calls (what their connection classes do for one "
+    "data_received), the byte framing below is C02's",
     "tunnel: two messages for one identifier are never put into ONE data-stream frame (below event granularity); "
     "HAP encryption of the data channel is bypassed (frames enter at channel.buffer / leave at channel.send)",
     "Companion responses that answer no outstanding request have no subscribers (only events can be listened "
@@ -65,7 +72,7 @@ TRUSTED = [
 ]
 
 PROPS_FILES = ["PyatvModel/Props/C03.lean", "PyatvModel/Props/C03Rtsp.lean", "PyatvModel/Props/C03Disp.lean",
-               "PyatvModel/Props/C03Pair.lean"]
+               "PyatvModel/Props/C03Pair.lean", "PyatvModel/Props/C03Reads.lean"]
 KNOWN_SIG = "http-fifo:late-response-after-timeout"
 HTTP_WITNESS = "s,t0,s,rn:0"           # = PyatvModel.Props.C03.C03_http_counterexample
 TRANSPORTS = ["mrp", "companion", "http", "rtsp", "tunnel"]
